@@ -13,7 +13,7 @@ import (
 //	holder | loop | ctl | body | wrap
 
 var consHolders = []string{"local", "call", "field", "mapval", "sliceel", "closure", "generic", "method", "iface", "param", "ptrfield"}
-var consLoops = []string{"rangeDef", "rangeAsg", "pull", "pullThenRange", "rangeThenPull", "nestedRange", "nestedIter", "zip"}
+var consLoops = []string{"rangeDef", "rangeAsg", "rangeNone", "rangeBlank", "pull", "pullThenRange", "rangeThenPull", "nestedRange", "nestedIter", "zip"}
 var consCtls = []string{"none", "brk", "cont", "ret"}
 var consBodies = []string{"log", "redecl", "redecl2", "redeclcap", "redecl2cap", "redecl2ptr", "reassign", "reassignit"}
 var consWraps = []string{"plain", "ingen", "inclosure"}
@@ -246,6 +246,19 @@ func (p consProg) text(id string) string {
 		body("v")
 		ind--
 		w("}")
+	case "rangeNone", "rangeBlank": // no iteration variable at all (gofmt -s turns `for _ = range` into `for range`)
+		w("k0 := 0")
+		if p.loop == "rangeNone" {
+			w("for range %s {", G)
+		} else {
+			w("for _ = range %s {", G)
+		}
+		ind++
+		w("k0++")
+		body("k0")
+		ind--
+		w("}")
+		w("c.X(5, k0)")
 	case "rangeAsg":
 		w("var v int")
 		w("for v = range %s {", G)
